@@ -105,6 +105,37 @@ def fields_reset_in(fn, cls):
     return out
 
 
+def mutated_fields(fns, cls):
+    """Fields of K that some non-constructor function of the unit assigns, updates, or calls a non-const method on."""
+    out = {}
+    for name, fn in fns.items():
+        if fn.raw.get("cls") == cls and name.split("::")[-1] in (cls.split("::")[-1], "~" + cls.split("::")[-1]):
+            continue
+        roots = object_roots(fn, cls)
+        if not roots:
+            continue
+
+        def first_field(path):
+            if not path:
+                return None
+            parts = path.split(".")
+            if parts[0] in roots and len(parts) >= 2:
+                return parts[1].replace("[]", "")
+            return None
+        for i, x in fn.ex.items():
+            k = x["k"]
+            f = None
+            if k == "binop" and x["op"].endswith("=") and x["op"] not in ("==", "!=", "<=", ">="):
+                f = first_field(fn.access_path(x["lhs"]))
+            elif k == "unop" and x["op"] in ("++", "--"):
+                f = first_field(fn.access_path(x["sub"]))
+            elif k in ("mcall", "opcall") and x.get("obj") and not x.get("mconst") and not x.get("mstatic"):
+                f = first_field(fn.access_path(x["obj"]))
+            if f:
+                out.setdefault(f, (name, x["l"]))
+    return out
+
+
 def run(chk, config, rule="R-RESET-COVERS"):
     chk.rule(rule, "each arena-backed container / pointer member of a class is reset in the closure of each reset entry point "
                    "(reset()/clear()/fill()/for_each()/assignment), or is exempt with a reason")
@@ -121,10 +152,15 @@ def run(chk, config, rule="R-RESET-COVERS"):
             fns.setdefault(fn.name, fn)
         nclasses += 1
         exempt = ent.get("exempt", {})
+        mutated = mutated_fields(fns, cls) if ent.get("all_mutated_fields") else {}
         for root in ent["roots"]:
             rq = root if root.startswith("asmjit::") else "asmjit::" + root
             chk.need(rq in fns, "reset entry point %s not found in %s" % (root, unit))
             names = closure(fns, rq)
+            if ent.get("closure_functions"):
+                names = [("asmjit::" + n) for n in ent["closure_functions"]]
+                for n in names:
+                    chk.need(n in fns, "closure function %s not found in %s" % (n, unit))
             covered = {}
             for n in names:
                 for fld, how in fields_reset_in(fns[n], cls).items():
@@ -132,6 +168,8 @@ def run(chk, config, rule="R-RESET-COVERS"):
             nreq = 0
             for fld in rec["fields"]:
                 why = needs_reset(fld, ent.get("composite_types", []))
+                if ent.get("all_mutated_fields") and not why and fld["name"] in mutated:
+                    why = "mutated (by %s)" % mutated[fld["name"]][0].replace("asmjit::", "")
                 if "only_fields" in ent:
                     why = "pointer" if fld["name"] in ent["only_fields"] else None
                 if not why:
